@@ -234,7 +234,7 @@ class VisibilityDataV4(DataSet):
         # ------ Extract timestamps ------
 
         def _before(date):
-            return source.timestamps[0] < katpoint.Timestamp(date).secs
+            return capture_start < katpoint.Timestamp(date).secs
 
         self.source = source
         self.file = {}
@@ -252,6 +252,9 @@ class VisibilityDataV4(DataSet):
             self.accumulations_per_dump = cbf_n_accs * cbf_dumps_per_sdp_dump
         num_dumps = len(source.timestamps)
         source.timestamps += self.time_offset
+        # The workaround below depends on when the capture started, even if only some of its dumps are preselected
+        capture_start = getattr(source, 'capture_start', None)
+        capture_start = source.timestamps[0] if capture_start is None else capture_start + self.time_offset
         if _before('2000-01-01'):
             logger.warning("Data set has invalid first correlator timestamp "
                            "(%f)", source.timestamps[0])
